@@ -8,7 +8,9 @@
 (*    recs (sequence of [eqs |-> seq of [l, r], lmap |-> seq of [n, e]])]  *)
 (* Verdict (total, one line per record):                                   *)
 (*   OK | SKIP:refusal | SKIP:simplified | lhs_not_variable | domain |     *)
-(*   functional | inst | complete | complete_raises                        *)
+(*   functional | inst | complete | complete_raises |                      *)
+(*   SKIP:outside_quantifier (xv = the clause that failed on a pattern     *)
+(*   whose node kinds the property's quantifier does not name)             *)
 (* d = 1: the records differ from what the transcription C16_UnifyImpl     *)
 (* predicts (drift report only, never a verdict).                          *)
 (***************************************************************************)
@@ -34,16 +36,19 @@ Judge(rec) ==
         hyp == IsInjRenaming(rec.p, rec.t, C)
         vs  == [i \in 1..Len(rec.recs) |-> RecVerdict(rec.p, rec.t, C, rec.recs[i])]
         bad == FirstBad(vs)
-        v   == IF rec.exc # ""
+        v0  == IF rec.exc # ""
                THEN (IF hyp /\ C # {"*"} THEN "complete_raises" ELSE "SKIP:refusal")
                ELSE IF bad # 0 THEN vs[bad]
                ELSE IF hyp /\ Len(rec.recs) = 0 THEN "complete"
                ELSE IF \E i \in 1..Len(vs) : vs[i] = "simplified" THEN "SKIP:simplified"
                ELSE "OK"
+        failing == v0 \notin {"OK", "SKIP:refusal", "SKIP:simplified"}
+        ext == failing /\ ~InQuantifier(rec.p)
+        v   == IF ext THEN "SKIP:outside_quantifier" ELSE v0
         drift == IF rec.exc # "" \/ C = {"*"} THEN 0
                  ELSE IF UnifyImpl(rec.p, rec.t, C)
                          = [i \in 1..Len(rec.recs) |-> LmapFun(rec.recs[i])] THEN 0 ELSE 1
-    IN [id |-> rec.id, v |-> v, k |-> bad, n |-> Len(rec.recs),
+    IN [id |-> rec.id, v |-> v, xv |-> IF ext THEN v0 ELSE "", k |-> bad, n |-> Len(rec.recs),
         h |-> IF hyp THEN 1 ELSE 0, d |-> drift,
         feat |-> IF HasEmptyAC(rec.p) THEN "empty-ac-in-pattern" ELSE rec.p.t]
 
